@@ -49,6 +49,9 @@ int t2_epoll_wait(int epfd, struct epoll_event* events, int maxevents, int timeo
 
 static void reg_manager(fiber_manager_t* m, int t) {
   long base = 400 + 20 * t;
+  /* the periodic load balance of fiber_manager_yield happens every 1024 yields: start just below the
+   * period so that short runs exercise it too (the value itself is a statistics counter) */
+  m->yield_count = 1021 - t;
   rt_reg((void*)&m->current_fiber, 8, base + 0, 8);
   rt_reg((void*)&m->old_fiber, 8, base + 1, 8);
   rt_reg((void*)&m->to_schedule, 8, base + 2, 8);
